@@ -451,7 +451,8 @@ def sol_query(q):
 def tuple_goal(vs):
     """everything observed goes into ONE binding: run_query converts each binding separately, so variables
     shared between two bindings are not recognisable in its result."""
-    return "copy_term(v%s, R__, Gs__), K__ = k(R__, Gs__)" % ("(" + ",".join(vs) + ")" if vs else "")
+    v = "v(" + ",".join(vs) + ")" if vs else "v"
+    return "( acyclic_term(%s) -> copy_term(%s, R__, Gs__), K__ = k(R__, Gs__) ; K__ = cyclic )" % (v, v)
 
 
 def round1_lines(batch):
@@ -567,6 +568,8 @@ def sol_parts(it):
         return None
     b = parse_bindings(it[1:-1])
     names = {}
+    if b["K__"] == ('a', 'cyclic'):
+        return None
     k = rename(b["K__"], names, "_H")
     goals, tl = as_list(k[2][1])
     return k[2][0], goals
